@@ -44,6 +44,31 @@ def seeded():
                                                     "; ".join(by) if by else "**not caught** " + m.get("why_missed", "")))
     rows.append("")
     rows.append("%d seeded changes filed, %d caught by the registered quick checks." % (n, caught))
+    # per round / per property matrix
+    rounds = {"m": "round 1", "n": "round 2", "p": "round 3"}
+    stat = {}
+    for d in sorted(glob.glob(os.path.join(V, "seeded", "*"))):
+        mf = os.path.join(d, "meta.json")
+        if not os.path.exists(mf):
+            continue
+        m = json.load(open(mf))
+        name = os.path.basename(d)
+        r = rounds.get(name.split("_")[1][0], "other")
+        ok = any(det["exit"] == 1 and det["violation_lines"] for det in m["detection"].values())
+        stat.setdefault(m["property"], {}).setdefault(r, []).append(ok)
+    rows.append("")
+    rows.append("| property | " + " | ".join(rounds.values()) + " |")
+    rows.append("|---|" + "---|" * len(rounds))
+    tot = {r: [0, 0] for r in rounds.values()}
+    for pid in sorted(stat):
+        cells = []
+        for r in rounds.values():
+            v = stat[pid].get(r, [])
+            cells.append("%d/%d" % (sum(v), len(v)) if v else "-")
+            tot[r][0] += sum(v)
+            tot[r][1] += len(v)
+        rows.append("| %s | %s |" % (pid, " | ".join(cells)))
+    rows.append("| all | " + " | ".join("%d/%d" % tuple(tot[r]) for r in rounds.values()) + " |")
     return "\n".join(rows)
 
 
